@@ -276,7 +276,7 @@ def _make(what, rng, fl):
             r1, r2 = Uniform(0.3, 0.9), Uniform(0.3, 0.9)
             sc = Spheres([Sphere(n=1.5, r=r1, center=[1, 1, 10.0]), Sphere(n=_prior(rng, "U"), r=r2, center=[3, 1, _prior(rng, "U")]), Sphere(n=1.5, r=p, center=[5, p, 10.0])], warn=False)
             m = AlphaModel(sc, alpha=_prior(rng, "U"), noise_sd=0.1, medium_index=1.33, illum_wavelen=0.66, illum_polarization=(1, 0), theory=Mie)
-            m.add_tie(["0:r", "1:r"], new_name=[None, "radius"][int(rng.integers(0, 2))])
+            m.add_tie(["0:r", "1:r"], new_name=[None, "tied radius"][int(rng.integers(0, 2))])      # (a name no other parameter can have)
             return m
         if what == "ModelChannels":
             return AlphaModel(s1, alpha=_prior(rng, "U"), noise_sd={"red": 0.1, "green": _prior(rng, "U")}, medium_index=1.33,
